@@ -45,7 +45,7 @@ void stub_run_multicry(u8 *self, u8 *modes, u8 *printload)
   p->fin_pos = envf_tell(p->fin);
 }
 static const u8 MAGIC[8] = {0xC3, 0xA5, 0xC3, 0xA5, 0xC3, 0xA5, 0xC3, 0xA5};
-struct in_t { u8 key[16]; u8 key2[16]; u8 file[FLEN + 1]; u8 alt; u8 sel; } IN;
+struct in_t { u8 key[16]; u8 key2[16]; u8 file[FLEN + 1]; u8 alt; u8 sel; u8 diff[32]; } IN;
 static u8 FILEB[FLEN + 1];     /* the input file actually used: IN.file, optionally with magic / a VALID tag patched in (sel bits) so that
                                   counterexamples that need an authentic tag replay on the real build, where the hash is the real one */
 
@@ -73,6 +73,7 @@ static void build_file(void)
     u8 ref[32];
     tag_of(FILEB, FLEN, IN.key, FILEB[9], ref);
     if (IN.sel & 1) { for (int i = 0; i < 32; i++) if (i < ref_hash_len(FILEB[9])) FILEB[10 + i] = ref[i]; }
+    else if (IN.sel & 4) { for (int i = 0; i < 32; i++) if (i < ref_hash_len(FILEB[9])) FILEB[10 + i] = (u8)(ref[i] ^ IN.diff[i]); }   /* valid tag xor an arbitrary difference pattern: a counterexample about HOW tags are compared means the same on the real hash */
 #ifdef __CPROVER__
     else {                                      /* A-MAC: a tag field that was not computed with the key does not happen to be the valid tag */
       int eq = 1;
@@ -97,12 +98,41 @@ static int spec_accepts(const u8 *file, u32 flen, const u8 *key)
 }
 
 #if defined(H_GATE)
+#if !MODEL
+u32 vf_rc_verify_op(u8 *r, u64 fsize); u32 vf_rc_decrypt(u8 *r, u64 fsize);
+/* native replay of a tag-comparison counterexample (sel & 4): the wrong verdict may depend on a property of the tag VALUE (e.g. a zero
+   byte) that the uninterpreted hash chose freely; search the 65536 keys differing in the last two bytes for one whose real tag shows it */
+static int gate_disagrees(void)
+{
+  build_file();
+  u8 key[16];
+  memcpy(key, IN.key, 16);
+  u8 *fin = envf_open_in(FILEB, FLEN), *out = envf_open_out(OUTCAP);
+  u8 *r = vf_rc_new(fin, out, key, (u32)-1, (u32)-1, THREADS);
+#ifdef OP_VERIFY
+  u32 ok = vf_rc_verify_op(r, FLEN);
+#else
+  u32 ok = vf_rc_decrypt(r, FLEN);
+#endif
+  return (ok != 0) != (spec_accepts(FILEB, FLEN, IN.key) != 0);
+}
+#endif
 /* C11/C06/C05-L1,L2,L4: decrypt (or verify) of ANY byte string: memory safe (CBMC checks every access in the real code),
    terminates (unwinding assertions), accepts exactly per spec, a rejecting run writes nothing and never starts the pipeline,
    both handles are closed, process-global state is back to initial */
 void harness(void)
 {
   LOAD_INPUTS();
+#if !MODEL
+  if (IN.sel & 4) {
+    u8 k14 = IN.key[14], k15 = IN.key[15];
+    for (u32 v = 1; v < 65536; v++) {
+      IN.key[14] = (u8)(k14 ^ (v >> 8)); IN.key[15] = (u8)(k15 ^ v);
+      CHECK(!gate_disagrees(), "success iff magic, mode bytes in range, length >= 74 and tag == HMAC(key, file[48..EOF))");
+    }
+    IN.key[14] = k14; IN.key[15] = k15;
+  }
+#endif
   build_file();    /* hash-mode byte: one query per valid value (concrete, so buffer sizes are concrete), one for all invalid values */
   u8 key[16];
   memcpy(key, IN.key, 16);
